@@ -94,6 +94,15 @@ CLAIMED = {
         note="floats modelled as reals; exp through a structural cache; cut-off tests left free for 3 grid points per run (others "
              "assumed inside); int(period/interval) concretised by forking; open boundaries in the blurring runs (quick).",
         ref="DESIGN.md C16"),
+    "C10": dict(
+        text="Bounded symbolic model checking of boo_2d: ParticlePhi decided equal to the (weighted) mean of exp(i l theta) over "
+             "minimum-image bonds for all real positions and weights of either sign (De Moivre on the algebraic bond direction), "
+             "|psi|<=1 via unit-phase lemmas, =1 on perfect square/triangular stars with symbolic scale/orientation/origin, "
+             "rotation covariance psi' = e^{i l alpha} psi, and time_average / spatial_corr / time_corr against the documented "
+             "constituent functions.",
+        note="floats modelled as reals; N=3, <=2 bonds per particle, l in {1,2,3,4,6} quick / 1..12 thorough; concrete cells for "
+             "periodic runs; phase averaging (average_complex=False) uses a real phase symbol with algebraic (cos,sin).",
+        ref="DESIGN.md C10"),
 }
 
 NOT_APPLICABLE = {
